@@ -103,12 +103,12 @@ func (t *Directive) Validate(root *Root) (errs []error) {
 		errs = append(errs, validateName(a.core, "argument", a.N, a.line, a.col)...)
 		if co, _ := a.Type.(InCoercer); co != nil {
 			if a.Default != nil {
-				if v, err := co.CoerceIn(a.Default); err != nil {
+				// A copy is checked, see validateDirUse.
+				if v, err := co.CoerceIn(copyDefault(a.Default)); err != nil {
 					errs = append(errs, fmt.Errorf("%w at %d:%d", err, a.line, a.col))
-				} else {
+				} else if !isCollection(v) {
 					// Might as well replace the coerced value since it is really
-					// what is needed. Lists and input objects can not be compared
-					// so there is no check for a change.
+					// what is needed. Lists and input objects stay as written.
 					a.Default = v
 				}
 			}
